@@ -125,6 +125,18 @@ def _rule_argument_materialised_first(ctx, typer):
             continue
         conv_args = {id(c.ast.value.args[0]) for c in conv}
         bad = None
+        # materialised under ANOTHER name: the raw argument must not be looked at again at all (validating or iterating
+        # the original after tuple() consumed a one-shot iterator sees nothing)
+        other_name = [c for c in conv if not any(isinstance(t, ast.Name) and t.id == prm for t in c.ast.targets)]
+        if other_name and len(other_name) == len(conv):
+            for x in walk_own(f.node):
+                if isinstance(x, ast.Name) and x.id == prm and isinstance(x.ctx, ast.Load) and id(x) not in conv_args:
+                    bad = x
+            if bad is not None:
+                ctx.viol("E5", f, bad, "the raw argument `%s` is used again after it was materialised as `%s`: a one-shot iterator is "
+                         "already exhausted there, so that use (validation, iteration) sees nothing" % (
+                             prm, norm(other_name[0].ast.targets[0])), construct="%s.children.setter: raw argument used after tuple()" % m)
+                continue
         for x in walk_own(f.node):
             if isinstance(x, ast.Name) and x.id == prm and isinstance(x.ctx, ast.Load) and id(x) not in conv_args:
                 for h in cfg_nodes_containing(cfg, x):
